@@ -226,8 +226,16 @@ def oracle_die(case, obs):
 # --------------------------------------------------------------------------
 # allocation
 # --------------------------------------------------------------------------
+def _exact_alloc_case(rng):
+    """alloc_common also generates decimal cases (oracle-only there); the C19 model comparison needs exact ones."""
+    while True:
+        c = ac.gen_case(rng)
+        if c.get("stream") != "decimal":
+            return c
+
+
 def gen_alloc_case(rng):
-    c = ac.gen_case(rng)
+    c = _exact_alloc_case(rng)
     for cell in c["cells"]:           # the region of a cell: any identifier the Rectangle class takes
         if rng.random() < 0.15:
             cell["rect"]["region"] = rng.choice(["lut", "null", "y", "R_1"])
@@ -976,7 +984,7 @@ class Spy:
 
 
 def gen_allocnet(rng):
-    c = ac.gen_case(rng)
+    c = _exact_alloc_case(rng)
     return {"prod": "allocnet", "cells": c["cells"], "eps": c["eps"], "aeps": c["aeps"]}
 
 
